@@ -306,7 +306,9 @@ HandleSelfUpdate(c, inc, state) ==
     ELSE IF state = "S" THEN
         LET increase == c.st.inc <= inc
             mx == Max(inc, c.st.inc)
-        IN IF mx = IncMax THEN RejoinOrUndead(c)
+        \* (fix a23716c) a suspicion about an older incarnation has been refuted already: it is not "unrefutable"
+        \* even when the instance lives at the maximum incarnation
+        IN IF mx = IncMax /\ (increase \/ ~Fixed("a23716c")) THEN RejoinOrUndead(c)
            ELSE Gossip(IF increase THEN [c EXCEPT !.st.inc = Min(mx + 1, IncMax)] ELSE c)
     ELSE IF state = "A" THEN c
     ELSE RejoinOrUndead(c)
